@@ -148,7 +148,8 @@ Example cstoreC_repaired :
 Proof. split; [|split]; vm_compute; reflexivity. Qed.
 
 (* (D), the code as it is now ([bd = true], [fixed = false]).  Run 1: the read of the out-of-line body fails,
-   the run reports an error and keeps everything.  Run 2, no reset, no fault, ANY resume oracle: success, and all
+   the run reports an error and keeps everything.  Run 2, no reset, no fault, resumed feed starting anywhere behind
+   the failed document (it starts from the beginning only when the checkpoint was not written yet): success, and all
    three referenced attachments of the conflicted document are gone (digest 3, shared with the second document,
    survives only if the resumed feed happens to reach that document) *)
 Definition cstoreD : cp_store :=
@@ -169,12 +170,12 @@ Proof.
   assert (R : cp_referenced cstoreD 1).
   { eexists. split; [left; reflexivity|]. exists [(0, CpAtt 1 true)]. split; [left; reflexivity|left; reflexivity]. }
   assert (P : cp_present cstoreD 1) by (left; reflexivity).
-  pose proof (F cstoreD [runD1; runD2 0] W eq_refl 1 R P) as K. vm_compute in K. intuition discriminate.
+  pose proof (F cstoreD [runD1; runD2 1] W eq_refl 1 R P) as K. vm_compute in K. intuition discriminate.
 Qed.
 
 Example cstoreD_runs :
   cp_rstatus (snd (cp_run true false cstoreD runD1)) = CpFailed /\
-  (forall skip, (skip <= 2)%nat ->
+  (forall skip, (1 <= skip <= 2)%nat ->
      cp_rstatus (snd (cp_run true false (fst (cp_run true false cstoreD runD1)) (runD2 skip))) = CpCompleted /\
      ~ cp_present (cp_runs true false cstoreD [runD1; runD2 skip]) 1 /\ ~ cp_present (cp_runs true false cstoreD [runD1; runD2 skip]) 2) /\
   (* the repaired resume keeps all of them *)
